@@ -414,7 +414,7 @@ PROPS = {
         ],
     },
     'C09': {
-        'v_units': ['redir', 'funcall'],
+        'v_units': ['redir', 'funcall', 'fullcompound'],
         'k_units': [],
         'level': 'other',
         'explanation': (
@@ -438,15 +438,18 @@ PROPS = {
             'shared with C02 / C16; RAII of the guard assumed there as a whole): execute_function and execute_external_utility perform the '
             'redirections of the command first, all of them, once, under a guard that lives until the command is over - the assignments, the '
             'function body / the utility run with exactly those redirections in effect and afterwards the redirections in effect are the '
-            'caller\'s -, and after a failed redirection the error is reported once and neither assignments nor command happen. '
+            'caller\'s -, and after a failed redirection the error is reported once and neither assignments nor command happen; '
+            'FullCompoundCommand::execute (unit fullcompound) does the same for a compound command with redirections: performed once, first, the '
+            'command runs once with exactly them in effect on top of the caller\'s, and they are gone afterwards. '
             'NOT decided: expansion of the operand and the writing of the '
-            'here-document body (assumed not to touch the table), the other callers of the guard (built-ins, compound commands, the absent target: '
+            'here-document body (assumed not to touch the table), the other callers of the guard (built-ins, the absent target: '
             'async interpreter code), move_fd_internal, and the simulated system itself.'),
         'trusted_base': ['Verus 0.2026.09.13 + Z3', '/verif/tools/vextract.py'],
         'assumptions': [
             'the system traits Close / Dup / Fcntl are replaced by one synchronous model trait over a ghost descriptor table (fd -> open file description, close-on-exec); dup returns a descriptor that was not open, >= its minimum, EBADF exactly for a closed source; dup2 clears close-on-exec; close of a closed descriptor succeeds (as the trait documents); failures of close/dup2 on valid descriptors are a function of the state and excluded by hypothesis in the restoration clauses',
             'expand_word / expand_text / fill_content / trace_* are external_body with assumed contracts: they leave the descriptor table alone; open() of the model yields a descriptor that was not open, for a NEW open file description that remembers its access mode and flags; fstat answers for the file behind the description; CString::new, the parsing of the <& operand and Path::new are opaque helpers; Result::is_ok_and has an assumed contract; `enum_set!(A | B)` is checked as `A | B`',
             'await points are dropped (strip-async): nothing else runs in between',
+            'unit fullcompound: the same assumptions as unit funcall for the guard; executing the compound command, the handler, apply_errexit and the tracer are opaque calls observed by a ghost monitor',
             'unit funcall (callers of the guard): RAII of RedirGuard is assumed as a whole in the contract of RedirGuard::new (external_body: when the guard goes away the redirections in effect are those of before), perform_redirs / the error handler / perform_assignments / the function body / the utility starter are opaque calls observed by a ghost monitor; await points dropped',
             'Env reduced to the system field; RedirGuard passes itself where &mut Env is expected (DerefMut): checked as `self.env`; `for x in v.drain(..).rev()` is checked as `while let Some(x) = v.pop()`, `for x in v.drain(..)` through a helper with an assumed contract; Drop::drop is checked as an inherent method with the same body',
             'Location, Word, Text, HereDoc, Field, XTrace, expansion errors, CString, NulError, ParseIntError are opaque placeholders; EnumSet<T> is a ghost set of flags with assumed contracts for empty / | / into / contains; Mode, the option set (one option) and file status (one bit) are reduced models; Errno::EBADF = 9, EEXIST = 17, ENOENT = 2',
@@ -538,7 +541,7 @@ PROPS = {
         ],
     },
     'C10': {
-        'v_units': ['errexit', 'condframe', 'assignstatus', 'simplecmd', 'errhandle'],
+        'v_units': ['errexit', 'condframe', 'assignstatus', 'simplecmd', 'errhandle', 'fullcompound'],
         'k_units': ['errexit'],
         'level': 'other',
         'explanation': (
@@ -563,7 +566,9 @@ PROPS = {
             'once after every simple command whose executor did not divert, and not after a failed expansion. Unit errhandle (Verus, yash-semantics/src/handle.rs): a syntax error (and a read error in a dot script) interrupts with status 2, '
             'another read error with 128; an expansion error ends the shell (Exit, status 2) where errexit applies and interrupts with status 2 '
             'otherwise, an interrupted expansion hands on its interrupt; a redirection error only sets $? to 2 and execution continues; each error '
-            'is reported exactly once. NOT decided: which other commands consult '
+            'is reported exactly once. Unit fullcompound (Verus, compound_command.rs): a failed redirection of a compound command is reported once, '
+            'the command does not run, and errexit is consulted once, AFTER the report, with the status the handler left - its answer is the '
+            'result -, while a successful one leaves errexit to the command. NOT decided: which other commands consult '
             'apply_errexit, and the consequences-of-shell-errors table (special built-in errors, redirection errors, assignment errors, '
             'expansion errors): all of that is async interpreter code outside both tools.'),
         'trusted_base': ['Verus 0.2026.09.13 + Z3', 'Kani 0.68.0 + CBMC 6.11', '/verif/tools/vextract.py, /verif/tools/kunit.py'],
@@ -572,6 +577,7 @@ PROPS = {
             'assumed contract of <[T]>::contains (membership under the specified equality); derived PartialEq of Frame and State is structural',
             'Kani: RandomState::new is stubbed with fixed keys (std asks the OS for random hash keys; no hash table is consulted by the functions under contract)',
             'unit errhandle: the error types are reduced to what the handlers inspect; printing the report is an opaque call; Env reduced to the exit status and a flag for errexit_is_applicable (unit errexit); ExitStatus::ERROR = 2, READ_ERROR = 128',
+            'unit fullcompound: RedirGuard::perform_redirs, executing the compound command, the error handler, apply_errexit and the tracer are opaque calls observed by a ghost monitor; RAII of the redirection guard assumed as a whole (external_body RedirGuard::new); await points dropped',
             'unit assignstatus: performing one assignment is an opaque call recorded in a ghost log; Option::or and Option::as_deref_mut (helper) have assumed contracts; await points dropped',
             'unit condframe: RAII of the frame guard is ASSUMED as a whole in the contract of Env::push_frame (external_body: while the guard lives the frame is on top; when it goes away one frame has been popped and the rest is as the guard left it) - Verus does not model destructors; what is verified is the destructor body (pops one frame) and the identical two-line body of Stack::push; running commands (List::execute, execute_commands_in_pipeline) is an opaque call that records (what, stack, status before/after, result) in a ghost log; Env reduced to exit_status / options / stack / log; `slice.iter().peekable()` is a hand-written index model; `&mut guard` (DerefMut) is checked as `guard.env`; an explicit drop(guard) is checked as the end of the guard\'s life; `?` on ControlFlow through assumed contracts; await points dropped; the option test of noexec is an assumed two-option model',
         ],
